@@ -511,3 +511,5 @@ MUTANTS.append(Mutant("connector-dials-none-endpoint", CTR, "        if ep is No
 MUTANTS.append(Mutant("transit-dials-none-endpoint", TR, "            ep = endpoint_from_hint_obj(hint_obj, self._tor, self._reactor)\n            if not ep:\n                continue\n            d = self._start_connector(ep,", "            ep = endpoint_from_hint_obj(hint_obj, self._tor, self._reactor)\n            d = self._start_connector(ep,", "C20.R7"))
 REWRITES.append(Rewrite("connector-none-endpoint-guard-inverted", CTR, "        if ep is None:\n            # no endpoint can reach this hint (e.g. Tor and a private address)\n            return\n        desc = describe_hint_obj(h, is_relay, self._tor)",
                         "        if not ep:\n            return None\n        desc = describe_hint_obj(h, is_relay, self._tor)", desc="truthiness spelling of the endpoint test"))
+
+MUTANTS.append(Mutant("early-hints-replayed-unfiltered", "src/wormhole/_dilation/manager.py", "        self._connector.start()\n", "        self._connector.start()\n        self._connector.got_hints([parse_hint(hs) for hs in getattr(self, \"_early\", [])])\n", "C20.R9", "seed C20-18"))
